@@ -72,6 +72,7 @@ func c15(r *core.Run) {
 	}
 	models := c04Models(r, "R1")
 	mQ := models["queryRequest"]
+	r.Rule("Q2", "a missing query is seen as missing: the request payload is decoded into a zero value made for that request (a local variable), not into a buffer kept in the query event - encoding/json leaves members the payload does not mention as they were, so a request without a query would inherit the query of the request before it", 1)
 	r.Rule("R2", "at most one response per query request (shared with C04.R0): the replied flag of the query request is written only in its reply funnel, where the store of true lies on the false edge of a test of the flag and dominates the single Conn.Publish - every reply method, including the ones that send a constant payload, goes through that test", 3)
 	c04ReplyFunnel(r, "R2", "queryRequest", models, p.FuncsOfPkg(""), map[*ssa.Function]bool{})
 	// roles: QueryEvent is the public entry point; the listener is the queryEvent method it starts
@@ -101,6 +102,7 @@ func c15(r *core.Run) {
 		r.Unres("R1", "queryRequest model / handleQueryRequest / startQueryListener / QueryEvent", "missing")
 		return
 	}
+	freshDecodeRule(r, "Q2", hq, "query request handling", false)
 
 	// ---- R1 --------------------------------------------------------------
 	// ---- Q1 --------------------------------------------------------------
